@@ -104,6 +104,10 @@ def compute_embedding_norm_sample(
     input_ids = activations[0].to(device)
     grad_values = backprops.to(device)
 
+    if input_ids.shape[0] == 0:
+        # Empty batch (Poisson sampling): there are no per-sample norms
+        return {layer.weight: torch.zeros(0, device=device)}
+
     # Reshape input_ids preserving the batch size as the first dimension
     input_ids = input_ids.reshape(input_ids.shape[0], -1)
 
